@@ -370,6 +370,8 @@ def monitor_sm(ops, outs, pid, extras=None):
     conn_open = False
     active_conn = False      # <enabled/> or <resumed/> accepted on the current connection
     counting = False         # inbound stanzas count: <enabled/> or <resumed/> seen on this connection
+    carry = []               # retransmissions still owed from an earlier connection
+    wr_all = True
     poisoned = False         # the server resumed with an h it cannot have counted: numbers are void
     for i, (op, out) in enumerate(zip(ops, outs)):
         t = op.split(" ")
@@ -377,10 +379,10 @@ def monitor_sm(ops, outs, pid, extras=None):
         if ln is None or ln["sent"] is None:
             prev = ln if ln and ln["sent"] is not None else prev
             if t[0] == "new":
-                log, expect_resend, inbound, active_in, pending_a, prev, poisoned = {}, [], 0, False, [], None, False
+                log, expect_resend, inbound, active_in, pending_a, prev, poisoned, carry = {}, [], 0, False, [], None, False, []
             continue
         if t[0] == "new":
-            log, expect_resend, inbound, active_in, pending_a, prev, poisoned = {}, [], 0, False, [], None, False
+            log, expect_resend, inbound, active_in, pending_a, prev, poisoned, carry = {}, [], 0, False, [], None, False, []
         if t[0] == "connect" and ln["res"] == "rc 0":
             scan.reset()
             pending_a = []
@@ -460,6 +462,7 @@ def monitor_sm(ops, outs, pid, extras=None):
                 inbound = ln["handled"]
         if pid == "C04" and poisoned:
             expect_resend = []
+            carry = []
         if pid == "C04" and not poisoned:
             smq = ln["smq"]
             # numbers retained are consecutive and end at sent-1
@@ -487,7 +490,10 @@ def monitor_sm(ops, outs, pid, extras=None):
                 if hv is not None and hv.isdigit() and len(hv) < 10 and ln["st"] != "d" and \
                         (int(hv) in smq_before or int(hv) == sent_before):
                     k0 = smq_before.index(int(hv)) if int(hv) in smq_before else len(smq_before)
-                    expect_resend = [log[n] for n in smq_before[k0:] if n in log]
+                    # (retransmissions that a previous connection did not get round to writing are
+                    #  still owed: they are older than everything retained since)
+                    expect_resend = carry + [log[n] for n in smq_before[k0:] if n in log]
+                    carry = []
                     if ln["sent"] != int(hv):
                         fails.append((i, "resumed-count want %s got %d" % (hv.decode(), ln["sent"])))
                 else:
@@ -520,5 +526,17 @@ def monitor_sm(ops, outs, pid, extras=None):
             if not (ln["smf"] and ln["smf"][2] == "1"):
                 # not resumable: a later session starts from scratch
                 expect_resend = []
+                carry = []
+            elif pid == "C04":
+                carry = carry + expect_resend
+                expect_resend = []
+        if pid == "C04" and t[0] == "wr":
+            wr_all = op == "wr all"
+        if pid == "C04" and expect_resend and active_conn and t[0] == "run" and wr_all and ln["q"] == 0 \
+                and not ln["tx"] and ln["st"] == "c":
+            # everything queued has been written, the transport accepts everything, and what is owed
+            # is not there
+            fails.append((i, "retransmission-lost %s" % expect_resend[0][:30]))
+            expect_resend = []
         prev = ln
     return fails
